@@ -227,6 +227,11 @@ class Runner:
                 ok = False
         if ok:
             self.res.witness_replays += 1
+        elif self.eng.float_mode == 'R' and (self.eng.r_apps or self.eng.pw_apps):
+            # the reals-with-rounding model over-approximates doubles: a model may pick any rounding the
+            # axioms allow, so a concrete value that went through R()/PW() need not equal the real one
+            self.res.extra['witness_values_through_float_abstraction_not_compared'] = \
+                self.res.extra.get('witness_values_through_float_abstraction_not_compared', 0) + 1
         else:
             self.res.inconclusive.append('%s: ENCODING MISMATCH on witness %s: %s -> symbolic %s, real %s' % (
                 job_label, inputs, expr, want, got.get('repr') if got['ok'] else 'raises ' + got['exc']))
